@@ -58,7 +58,8 @@ use crate::ops::{
 };
 use crate::{
     AccessByNameError, AccessError, AtAccessError, BuildMetaTableSnafu, CreateParserSnafu,
-    CreatePrinterSnafu, DicomObject, ElementNotFoundSnafu, FileDicomObject, InvalidGroupSnafu,
+    CreatePrinterSnafu, DicomObject, ElementNotFoundSnafu, ErrorLatch, FileDicomObject,
+    FinishDataSetSnafu, InvalidGroupSnafu,
     MissingElementValueSnafu, MissingLeafElementSnafu, NoSpaceSnafu, NoSuchAttributeNameSnafu,
     NoSuchDataElementAliasSnafu, NoSuchDataElementTagSnafu, NotASequenceSnafu, OpenFileSnafu,
     ParseMetaDataSetSnafu, ParseSopAttributeSnafu, PrematureEndSnafu, PrepareMetaTableSnafu,
@@ -2114,15 +2115,22 @@ where
         W: Write,
     {
         if let Codec::Dataset(Some(adapter)) = ts.codec() {
-            let adapter = adapter.adapt_writer(Box::new(to));
-            // prepare data set writer
-            let mut dset_writer =
-                DataSetWriter::with_ts(adapter, ts).context(CreatePrinterSnafu)?;
+            let mut to = ErrorLatch::new(to);
+            {
+                let adapter = adapter.adapt_writer(Box::new(&mut to));
+                // prepare data set writer
+                let mut dset_writer =
+                    DataSetWriter::with_ts(adapter, ts).context(CreatePrinterSnafu)?;
 
-            // write object
-            dset_writer
-                .write_sequence(self.into_tokens())
-                .context(PrintDataSetSnafu)?;
+                // write object
+                dset_writer
+                    .write_sequence(self.into_tokens())
+                    .context(PrintDataSetSnafu)?;
+
+                dset_writer.flush().context(PrintDataSetSnafu)?;
+            }
+            // the adapter may only have finished its output when dropped
+            to.finish().context(FinishDataSetSnafu)?;
 
             Ok(())
         } else {
@@ -2160,14 +2168,21 @@ where
         if let Codec::Dataset(Some(adapter)) = ts.codec() {
             // apply the data set adapter (e.g. deflate),
             // like `write_dataset_with_ts_cs` does
-            let adapter = adapter.adapt_writer(Box::new(to));
-            let mut dset_writer = DataSetWriter::with_ts_cs_options(adapter, ts, cs, options)
-                .context(CreatePrinterSnafu)?;
+            let mut to = ErrorLatch::new(to);
+            {
+                let adapter = adapter.adapt_writer(Box::new(&mut to));
+                let mut dset_writer = DataSetWriter::with_ts_cs_options(adapter, ts, cs, options)
+                    .context(CreatePrinterSnafu)?;
 
-            // write object
-            dset_writer
-                .write_sequence(self.into_tokens_with_options(required_options))
-                .context(PrintDataSetSnafu)?;
+                // write object
+                dset_writer
+                    .write_sequence(self.into_tokens_with_options(required_options))
+                    .context(PrintDataSetSnafu)?;
+
+                dset_writer.flush().context(PrintDataSetSnafu)?;
+            }
+            // the adapter may only have finished its output when dropped
+            to.finish().context(FinishDataSetSnafu)?;
 
             return Ok(());
         }
